@@ -452,14 +452,14 @@ def random_c04(rng, n_cases):
         if t % 6 == 5:
             out.append(random_c04_safe_map(rng))
             continue
-        if t % 5 == 4:
+        if t % 6 == 4:
             out.append(random_c04_indexed(rng))
             continue
         inv = rng.choice([-1, -1, 2147483647, 4611686018427387904])
         nsrc = rng.choice([0, 1, 2, 5, rng.randrange(1, 30)])
         n = rng.choice([0, 1, 2, 3, rng.randrange(1, 25)])
         src = [rng.randrange(-50, 1000) for _ in range(nsrc)]
-        what = t % 4
+        what = t % 6
         if what == 0:
             bad = rng.random() < 0.15
             m = [inv if rng.random() < 0.3 or nsrc == 0 else rng.randrange(-nsrc if bad else 0, nsrc + (2 if bad else 0))
@@ -775,14 +775,15 @@ def random_c17_merge_indexed(rng):
 def random_c17(rng, n_cases):
     out = []
     for t in range(n_cases):
-        if t % 5 == 4:
+        kind = t % 5
+        if kind == 4:
             out.append(random_c17_merge_indexed(rng))
             continue
-        if t % 4 == 3:
+        if kind == 3:
             out.append(random_c17_indexed(rng))
             continue
-        if t % 4:
-            out.append(random_c17_merge(rng, t // 4 + t % 4))
+        if kind in (1, 2):
+            out.append(random_c17_merge(rng, kind))
             continue
         no, nn = rng.randrange(0, 8), rng.randrange(0, 8)
         n = rng.randrange(0, 10)
